@@ -73,7 +73,7 @@ def h_nested(f, ns, start='zero', twice=False):
 
     def body(env):
         A = env.A
-        s = ct.make_spec('offline', 'out = ' + text(f), vs)
+        s = ct.make_spec('offline~', 'out = ' + text(f), vs)
         if twice is True:
             first = {v: ct.signal(env, 'first_' + v, 2, 'zero') for v in vs}     # an earlier evaluate() of the same object on other data
             s.evaluate(*[[v, [list(p) for p in first[v]]] for v in vs])
